@@ -5,7 +5,7 @@ Everything here works on the *current* source of /repo: facts are regenerated
 by `facts.build_ast()` on every run.
 """
 from __future__ import annotations
-import json, os, subprocess, sys, hashlib
+import json, os, subprocess, sys, hashlib, re
 
 CHILD_KEYS_SKIP = {"sp", "msp"}
 
@@ -130,6 +130,8 @@ class Fn:
 
 class AstBase:
     def __init__(self, doc):
+        global CURRENT_AST
+        CURRENT_AST = self
         self.doc = doc
         self.files = {}
         self.fns = []  # all Fn
@@ -139,6 +141,7 @@ class AstBase:
         self.sources = {}
         self.root = doc["root"]
         self.parse_errors = []
+        self._inl = {}
         for f in doc["files"]:
             if "parse_error" in f:
                 self.parse_errors.append((f["file"], f["parse_error"]))
@@ -222,9 +225,16 @@ class AstBase:
         rec(body, fn.node, "body")
 
     # ---- lookup
-    def fn(self, file_suffix, name, impl=None, required=True):
+    def fn(self, file_suffix, name, impl=None, required=True, inline=False):
         """Find exactly one non-test fn by file suffix, name, optional impl
-        container substring."""
+        container substring.  inline=True: the view with same-file helpers inlined (see inline_helpers)."""
+        if inline:
+            f = self.fn(file_suffix, name, impl, required)
+            if f is None:
+                return None
+            if f.qual not in self._inl:
+                self._inl[f.qual] = inline_helpers(self, f)
+            return self._inl[f.qual]
         cands = []
         for f in self.fns:
             if f.name != name or not f.file.endswith(file_suffix) or f.is_test:
@@ -698,3 +708,399 @@ def sha_file(path):
     with open(path, "rb") as fh:
         h.update(fh.read())
     return h.hexdigest()
+
+
+# ----------------------------------------------------------------------------------------------------------------------
+# normal-form text: `upn(fn, n)` prints an expression after behaviour-preserving normalisations, so that rules can compare code with
+# an expected form without being sensitive to everyday refactorings:
+#   * a local bound by one immutable `let` with a pure initialiser is replaced by that initialiser (hoisted / inlined temporaries)
+#   * std::cmp::min(a, b) / a.min(b) / max likewise print as min(A,B) with sorted arguments
+#   * a > b prints as b < a, a >= b as b <= a; operands of + * == != are sorted
+#   * parentheses and `as` casts between integer types keep their place (casts are printed), parens are dropped
+_PURE_METHODS = {"get", "unwrap", "map", "unwrap_or", "map_or", "min", "max", "len", "clone", "as_ref", "first", "last", "is_empty", "is_some", "is_none",
+                 "as_bytes", "saturating_add", "saturating_sub", "saturating_mul", "checked_sub", "checked_add", "checked_mul", "wrapping_add", "abs", "floor", "ceil", "to_string", "iter", "copied", "clamp", "pow", "trim_end", "trim", "as_str", "borrow", "borrow_mut", "to_owned"}
+
+
+def pure_expr(e, fn=None, depth=0):
+    for x in walk_no_nested_fn(e):
+        if x.k in ("try", "match", "return", "macro", "await", "assign", "break", "continue", "closure", "if", "block", "while", "loop", "for"):
+            return False
+        if x.k == "call":
+            f = up(x["func"])
+            if f.split("::")[-1] not in ("min", "max", "from", "Some", "Ok") and not f.split("::")[-1][:1].isupper():   # tuple-struct / variant constructors are pure
+                g = _simple_helper(fn, x) if fn is not None and depth < 3 else None
+                if g is None or not pure_expr(g.body["stmts"][0]["e"], g, depth + 1):
+                    return False
+        if x.k == "mcall" and x["method"] not in _PURE_METHODS:
+            return False
+        if x.k == "binary" and x["op"] in ("+=", "-=", "*=", "/=", "="):
+            return False
+    return True
+
+
+CURRENT_AST = None
+
+
+def _simple_helper(fn, call):
+    """the private, expression-bodied helper of the same file that `call` invokes by plain name, or None"""
+    if CURRENT_AST is None or fn is None or not isinstance(call.get("func"), Node) or call["func"].k != "path":
+        return None
+    nm = call["func"]["path"]
+    if "::" in nm:
+        return None
+    cands = [g for g in CURRENT_AST.fns if g.name == nm and g.file == fn.file and not g.is_test and g.body is not None]
+    if len(cands) != 1:
+        return None
+    g = cands[0]
+    st = g.body["stmts"]
+    if len(st) != 1 or st[0].k != "expr_stmt" or len(g.params) != len(call["args"]) or any(nm_ is None or nm_ == "self" for nm_, _ in g.params):
+        return None
+    if not pure_expr(st[0]["e"]) and not all(x.k != "try" for x in walk_no_nested_fn(st[0]["e"])):
+        return None
+    return g
+
+
+def _subst(n, env):
+    """copy of expression n with parameter paths replaced by (already normalised) argument nodes"""
+    if isinstance(n, list):
+        return [_subst(x, env) for x in n]
+    if not isinstance(n, Node):
+        return n
+    if n.k == "path" and n["path"] in env:
+        return env[n["path"]]
+    out = Node({})
+    out.parent = None
+    out.pkey = None
+    out.fn = None
+    out.file = None
+    out.order = -1
+    for key, v in n.items():
+        if isinstance(v, (Node, list)):
+            out[key] = _subst(v, env)
+        elif isinstance(v, dict):
+            out[key] = {kk: _subst(vv, env) for kk, vv in v.items()}
+        else:
+            out[key] = v
+    return out
+
+
+def _place_text(n):
+    n0 = n
+    while isinstance(n, Node) and (n.k in ("field", "paren", "index") or (n.k == "unary" and n["op"] == "*") or n.k == "ref"):
+        n = n["base"] if n.k in ("field", "index") else n["e"]
+    if isinstance(n, Node) and n.k == "path":
+        return re.sub(r"[*&()]|\bmut ", "", up(n0)).strip()
+    return None
+
+
+def assigned_places(fn, _cache={}):
+    """texts of the places a function writes: assignment targets, `&mut` borrows, receivers of methods not known to be pure, `mut` locals"""
+    key = id(fn)
+    if key in _cache and _cache[key][0] is fn:
+        return _cache[key][1]
+    out = []
+    if fn.body is not None:
+        for x in walk(fn.body):
+            t = None
+            if x.k == "assign" or (x.k == "binary" and x["op"] in ("+=", "-=", "*=", "/=", "%=", "|=", "&=", "^=", "<<=", ">>=")):
+                t = _place_text(x["l"])
+            elif x.k == "ref" and x.get("mut"):
+                t = _place_text(x["e"])
+            elif x.k == "mcall" and x["method"] not in _PURE_METHODS:
+                t = _place_text(x["recv"])
+            elif x.k == "p_ident" and x.get("mut"):
+                t = x["name"]
+            if t:
+                out.append((t, x.order))
+    _cache[key] = (fn, out)
+    return out
+
+
+def _reads_assigned(fn, init, lo=None, hi=None):
+    """the initialiser reads a place that is written between the `let` (order lo) and the use (order hi): replacing the local by its
+    initialiser there would read the later value"""
+    if fn is None:
+        return False
+    asg = {t for t, o in assigned_places(fn) if (lo is None or o > lo) and (hi is None or hi < 0 or o < hi)}
+    if not asg:
+        return False
+    for x in walk_no_nested_fn(init):
+        if x.k in ("path", "field", "index") or (x.k == "unary" and x["op"] == "*"):
+            if x.parent is not None and isinstance(x.parent, Node) and x.parent.k in ("field", "index") and x.pkey == "base":
+                continue    # only maximal place expressions
+            t = _place_text(x)
+            if t is None:
+                continue
+            for a in asg:
+                if t == a or t.startswith(a + ".") or a.startswith(t + ".") or t.startswith(a + "["):
+                    return True
+    return False
+
+
+def _tnorm(fn, n, depth=0, hi=None):
+    if isinstance(n, list):
+        return [_tnorm(fn, x, depth, hi) for x in n]
+    if not isinstance(n, Node):
+        return n
+    k = n.k
+    if k == "paren":
+        return _tnorm(fn, n["e"], depth, hi)
+    if k == "call" and depth < 6:
+        g = _simple_helper(fn, n)
+        if g is not None:
+            env = {nm: _tnorm(fn, a, depth + 1, hi) for (nm, _), a in zip(g.params, n["args"])}
+            body = _tnorm(g, g.body["stmts"][0]["e"], depth + 1)
+            return _subst(body, env)
+    if k == "path" and fn is not None and "::" not in n["path"] and depth < 8:
+        try:
+            b = binding_before(fn, n["path"], n)
+        except Exception:
+            b = None
+        if b is not None and b[0] == "let" and b[-1] == () and b[1].get("init") is not None and b[1]["pat"].k == "p_ident" \
+                and not b[1]["pat"].get("mut") and not b[1]["pat"].get("byref") and pure_expr(b[1]["init"], fn) and not _reads_assigned(fn, b[1]["init"], b[1].order, hi if hi is not None else n.order):
+            return _tnorm(fn, b[1]["init"], depth + 1, hi if hi is not None else n.order)
+    out = Node({})
+    out.parent = None
+    out.pkey = None
+    out.fn = None
+    out.file = None
+    out.order = -1
+    for key, v in n.items():
+        if isinstance(v, Node) or isinstance(v, list):
+            out[key] = _tnorm(fn, v, depth, hi)
+        elif isinstance(v, dict):
+            out[key] = {kk: _tnorm(fn, vv, depth, hi) for kk, vv in v.items()}
+        else:
+            out[key] = v
+    # min / max: one canonical spelling, sorted arguments
+    if k == "call" and isinstance(out.get("func"), Node) and out["func"].k == "path" and out["func"]["path"].split("::")[-1] in ("min", "max") and len(out["args"]) == 2:
+        a0, a1 = out["args"]
+        m = out["func"]["path"].split("::")[-1]
+        out = Node({"k": "mcall", "method": m, "recv": a0, "args": [a1], "sp": n.get("sp")})
+        out.parent = None
+        out.pkey = None
+        out.fn = None
+        out.file = None
+        out.order = -1
+        k = "mcall"
+    if k == "mcall" and out["method"] in ("min", "max") and len(out["args"]) == 1:
+        if up(out["recv"]) > up(out["args"][0]):
+            out["recv"], out["args"] = out["args"][0], [out["recv"]]
+    if k == "binary":
+        if out["op"] in (">", ">="):
+            out["op"] = "<" if out["op"] == ">" else "<="
+            out["l"], out["r"] = out["r"], out["l"]
+        elif out["op"] in ("+", "*", "==", "!="):
+            if up(out["l"]) > up(out["r"]):
+                out["l"], out["r"] = out["r"], out["l"]
+    return out
+
+
+def upn(fn, n):
+    """normal-form text of expression n (see above)."""
+    return up(_tnorm(fn, strip(n) if isinstance(n, Node) else n))
+
+
+def opt_dispatch(n):
+    """recognise a dispatch on an Option in its three spellings; -> (scrutinee node, bound name or None, some-body node, none-body node or None) or None
+       match E { Some(x) => A, None => B } | if let Some(x) = E { A } else { B } | let Some(x) = E else { B };  (for the last, some-body is None)"""
+    n = strip(n) if isinstance(n, Node) else n
+    if not isinstance(n, Node):
+        return None
+    if n.k == "match" and len(n["arms"]) == 2:
+        pats = {up(a["pat"]).split("(")[0]: a for a in n["arms"]}
+        if set(pats) == {"Some", "None"} and pats["Some"].get("guard") is None:
+            nm = up(pats["Some"]["pat"])[5:-1]
+            return (n["scrut"], nm, pats["Some"]["body"], pats["None"]["body"])
+    if n.k == "if" and strip(n["cond"]).k == "let_expr" and up(strip(n["cond"])["pat"]).startswith("Some("):
+        c = strip(n["cond"])
+        return (c["e"], up(c["pat"])[5:-1], n["then"], n.get("else"))
+    if n.k == "let" and n.get("else") is not None and up(n["pat"]).startswith("Some("):
+        return (n["init"], up(n["pat"])[5:-1], None, n["else"])
+    return None
+
+
+def private_callees(ast, fn, depth=2):
+    """functions of the same file that fn calls by plain name (helpers a refactoring may have extracted), transitively up to depth"""
+    out, seen, frontier = [], {fn.qual}, [fn]
+    for _ in range(depth):
+        nxt = []
+        for f in frontier:
+            if f.body is None:
+                continue
+            for c in walk_no_nested_fn(f.body):
+                nm = None
+                if c.k == "call" and isinstance(c["func"], Node) and c["func"].k == "path":
+                    nm = c["func"]["path"].split("::")[-1]
+                elif c.k == "mcall" and up(strip(c["recv"])) in ("self", "Self"):
+                    nm = c["method"]
+                if nm is None:
+                    continue
+                for g in ast.fns:
+                    if g.name == nm and g.file == fn.file and not g.is_test and g.qual not in seen and g.body is not None:
+                        seen.add(g.qual)
+                        out.append(g)
+                        nxt.append(g)
+        frontier = nxt
+    return out
+
+
+def walk_with_callees(ast, fn, depth=2):
+    """nodes of fn's body followed by the nodes of its private callees' bodies"""
+    for x in walk_no_nested_fn(fn.body):
+        yield x
+    for g in private_callees(ast, fn, depth):
+        for x in walk_no_nested_fn(g.body):
+            yield x
+
+
+# ----------------------------------------------------------------------------------------------------------------------
+# helper inlining: `AstBase.fn(.., inline=True)` returns a view of the function in which calls of helpers defined in the same file
+# (plain-name calls and `self.helper(..)`) are replaced by `{ let <param> = <arg>; ... <helper body> }`, so that rules written
+# against the inlined form do not care whether a piece of code was extracted into a helper.  A call is inlined only when doing so
+# preserves meaning: the helper has no `return`, uses `?` only if the call site propagates its result (`helper(..)?`, tail
+# expression or `return helper(..)`), takes identifier parameters, is not recursive, and no argument mentions an earlier parameter.
+def _mknode(d):
+    n = Node(d)
+    n.parent = None
+    n.pkey = None
+    n.fn = None
+    n.file = None
+    n.order = -1
+    return n
+
+
+def _copy_tree(v):
+    if isinstance(v, Node):
+        return _mknode({k: _copy_tree(x) for k, x in v.items()})
+    if isinstance(v, list):
+        return [_copy_tree(x) for x in v]
+    if isinstance(v, dict):
+        return {k: _copy_tree(x) for k, x in v.items()}
+    return v
+
+
+def _helper_for(ast, fn, c, stack):
+    if c.k == "call" and isinstance(c.get("func"), Node) and c["func"].k == "path":
+        nm = c["func"]["path"]
+        if nm.startswith("Self::"):
+            nm = nm[6:]
+        if "::" in nm:
+            return None
+        want_self = False
+    elif c.k == "mcall" and up(strip(c["recv"])) == "self":
+        nm = c["method"]
+        want_self = True
+    else:
+        return None
+    cands = [g for g in ast.fns if g.name == nm and g.file == fn.file and not g.is_test and g.body is not None and g.qual not in stack
+             and bool(g.params and g.params[0][0] == "self") == want_self]
+    if want_self:
+        impl_of = lambda f: [n.split(" as ")[0] for kind, n in f.container if kind == "impl"]
+        cands = [g for g in cands if impl_of(g)[-1:] == impl_of(fn)[-1:] or len(cands) == 1]
+    cands = [g for g in cands if not any(kind == "impl" and " as " in n for kind, n in g.container[-1:])]   # trait methods are interfaces, not extracted helpers
+    if len(cands) != 1:
+        return None
+    g = cands[0]
+    params = [p for p in g.params if p[0] != "self"]
+    if len(params) != len(c["args"]) or any(p[0] is None for p in params) or g.node["sig"].get("async"):
+        return None
+    for x in walk_no_nested_fn(g.body):
+        if x.k in ("return", "await"):
+            return None
+    seen = []
+    for (pn, _), a in zip(params, c["args"]):
+        names = {y["path"] for y in walk(a) if y.k == "path"}
+        if names & set(seen):
+            return None
+        seen.append(pn)
+    return g
+
+
+def _propagating_site(c):
+    """the call's value is `?`-propagated, returned, or the tail of the function body"""
+    p = c.parent
+    if p is None:
+        return False
+    if p.k in ("try", "return"):
+        return True
+    x = c
+    while p is not None and isinstance(p, Node):
+        if p.k == "expr_stmt":
+            if p.get("semi"):
+                return False
+            blk = p.parent
+            if blk is None or blk.k != "block" or blk["stmts"][-1] is not p:
+                return False
+            x, p = blk, blk.parent
+            continue
+        if p.k in ("if", "match", "arm", "block", "paren"):
+            if p.k == "if" and x.pkey == "cond":
+                return False
+            if p.k == "match" and x.pkey == "scrut":
+                return False
+            x, p = p, p.parent
+            continue
+        if p.k == "fn":
+            return True
+        return False
+    return False
+
+
+def inline_helpers(ast, fn, depth=2):
+    node = _copy_tree(fn.node)
+    view = Fn(node, fn.file, fn.container, fn.qual)
+    view.is_test = fn.is_test
+    view.inlined = []
+    for _ in range(depth):
+        ast._annotate(view)
+        changed = False
+        for c in list(walk_no_nested_fn(view.body)):
+            if c.k not in ("call", "mcall"):
+                continue
+            g = _helper_for(ast, fn, c, {fn.qual} | set(view.inlined) if False else {fn.qual})
+            if g is None:
+                continue
+            if any(x.k == "try" for x in walk_no_nested_fn(g.body)) and not _propagating_site(c):
+                continue
+            params = [p for p in g.params if p[0] != "self"]
+            pats = [i["pat"] for i in g.node["sig"]["inputs"] if not i.get("self")]
+            stmts = []
+            for pat, a in zip(pats, c["args"]):
+                stmts.append(_mknode({"k": "let", "pat": _copy_tree(pat), "attrs": [], "init": a, "else": None, "sp": c.get("sp")}))
+            stmts += _copy_tree(g.body["stmts"])
+            blk = _mknode({"k": "block", "stmts": stmts, "sp": c.get("sp"), "inlined_from": g.qual})
+            par, key = c.parent, c.pkey
+            if not _replace_child(par, c, blk):
+                continue
+            view.inlined.append(g.qual)
+            changed = True
+        if not changed:
+            break
+    ast._annotate(view)
+    return view
+
+
+def _replace_child(par, old, new):
+    if par is None:
+        return False
+    for k, v in par.items():
+        if v is old:
+            par[k] = new
+            return True
+        if isinstance(v, list):
+            for i, x in enumerate(v):
+                if x is old:
+                    v[i] = new
+                    return True
+                if isinstance(x, dict) and not isinstance(x, Node):
+                    for kk, vv in x.items():
+                        if vv is old:
+                            x[kk] = new
+                            return True
+        if isinstance(v, dict) and not isinstance(v, Node):
+            for kk, vv in v.items():
+                if vv is old:
+                    v[kk] = new
+                    return True
+    return False
